@@ -22,18 +22,19 @@ def _tuples_in(func_node):
 
 
 def decoder_tables():
+    """{"_execute": {w16, w8}, "others": {funcname: {w16, w8}}, "emitter": {w16}} read from the engine's source"""
     import microjs.vm as vm
     import microjs.compiler as comp
     tree = ast.parse(inspect.getsource(vm))
-    tabs = {}
+    found = {}
     for n in ast.walk(tree):
-        if isinstance(n, ast.FunctionDef) and n.name in ("_execute", "_call_callback"):
+        if isinstance(n, ast.FunctionDef):
             ts = _tuples_in(n)
-            if len(ts) < 2:
-                raise RuntimeError("cannot find decoder tables in vm.%s" % n.name)
-            tabs[n.name] = {"w16": sorted(ts[0]), "w8": sorted(ts[1])}
-    if set(tabs) != {"_execute", "_call_callback"}:
-        raise RuntimeError("decoder functions not found")
+            if len(ts) >= 2 and len(ts[0]) >= 3 and len(ts[1]) >= 8:
+                found[n.name] = {"w16": sorted(ts[0]), "w8": sorted(ts[1])}
+    if "_execute" not in found or len(found) < 2:
+        raise RuntimeError("decoder loops not found in vm.py: %s" % sorted(found))
+    tabs = {"_execute": found.pop("_execute"), "others": found}
     tabs["emitter"] = {"w16": sorted(o.name for o in comp.Compiler._JUMP_OPCODES)}
     return tabs
 
